@@ -11,7 +11,7 @@
                 key/IV, so both sides index the same function
      snappy_enc / snappy_dec   snappy.Encode / snappy.Decode (not modelled);
                 snappy.DecodedLen IS modelled (snappy_declen), it is the size gate. *)
-From AQ Require Import Lib.Bytes Rlp.RlpSpec.
+From AQ Require Import Lib.Bytes Rlp.RlpSpec Generated.GenParamsNet.
 Local Open Scope N_scope.
 
 (* ---- byte xor, bitwise ---- *)
@@ -29,9 +29,10 @@ Fixpoint xor_bytes (a b : bytes) : bytes :=
   | _, _ => []
   end.
 
-Definition max_uint24 : N := 16777215.          (* rlpx.go maxUint24 = ^uint32(0) >> 8 *)
+(* constants come from the translator (Generated/GenParamsNet.v, regenerated from /repo on every run) *)
+Definition max_uint24 : N := Eval compute in g_max_uint24.   (* rlpx.go maxUint24 = ^uint32(0) >> 8 *)
 Definition two32 : N := 4294967296.
-Definition zero_header : bytes := [xc2; x80; x80]. (* rlpx.go zeroHeader *)
+Definition zero_header : bytes := Eval compute in map n2b g_zero_header. (* rlpx.go zeroHeader = C2 80 80 *)
 
 (* bytes of zero padding after a frame of n bytes: rlpx.go `if padding := fsize % 16; padding > 0 { 16 - padding }` *)
 Definition pad16 (n : N) : N := if n mod 16 =? 0 then 0 else 16 - n mod 16.
